@@ -47,7 +47,7 @@ func TestMain(m *testing.M) {
 // context), "p:<kind>", "pg:<kind>" (the same from a function whose source file
 // does not exist, as generated code compiled elsewhere), "inj", "bfw" (register
 // a before-function that panics, then write body bytes), "xc" (WriteHeader with
-// a code the underlying writer rejects by panicking), "hj" (a Hijack that fails).
+// a code the underlying writer rejects by panicking), "hj" (a Hijack that fails), "cf" (io.Copy from a source that fails before its first byte, right before a panic).
 type H struct {
 	Ops []string `json:"ops"`
 	// Shape: "" = func(Context); "http" = func(http.ResponseWriter, *http.Request);
@@ -258,6 +258,7 @@ type sim struct {
 	panicked  string // kind of the panic that reached Recovery ("" = none)
 	nested    bool
 	depth     int
+	copyOpen  bool // an empty io.Copy came before anything was sent
 }
 
 type simPanic struct{ kind string }
@@ -305,6 +306,13 @@ func (m *sim) run() {
 				}
 			case op == "hj":
 				// a failed Hijack changes nothing
+			case op == "cf":
+				// io.Copy from a source that fails before its first byte: nothing is
+				// forwarded. (A writer with a ReadFrom of its own may send the 200 all
+				// the same, as net/http's does: then that is the status - see copyOpen.)
+				if m.status == 0 {
+					m.copyOpen = true
+				}
 			case op == "n":
 				m.depth++
 				m.run()
@@ -415,6 +423,8 @@ func build(c Case) *app {
 					if hj, ok := w.(http.Hijacker); ok {
 						_, _, _ = hj.Hijack()
 					}
+				case op == "cf":
+					_, _ = io.Copy(w, failingSource{})
 				case strings.HasPrefix(op, "pd:"):
 					// the panic comes from the bottom of a deep call stack (a
 					// recursive descent, a long chain of small helpers)
@@ -547,6 +557,11 @@ func (s strictSpy) WriteHeader(code int) {
 func (s strictSpy) Hijack() (net.Conn, *bufio.ReadWriter, error) {
 	return nil, nil, errors.New("hijacking is not supported on this connection")
 }
+
+// failingSource is a reader (and nothing more) that fails before its first byte.
+type failingSource struct{}
+
+func (failingSource) Read([]byte) (int, error) { return 0, errors.New("upstream closed the stream") }
 
 func serveM(a *app, method, path string) (r resp) {
 	spy := rt.NewSpy()
@@ -722,9 +737,15 @@ func checkCase(c Case) (out evid.Outcome) {
 			wantStatus = 500
 		}
 		for k, st := range a.seenStatus {
-			if st != wantStatus {
+			if st != wantStatus && !(want.copyOpen && want.status == 0 && st == 200 && got.status == 200) {
 				return fail(out, "outer-middleware-status", "recording middleware (the %d. to return) reads Status() = %d after Next(), the response has status %d; %s", k+1, st, wantStatus, desc)
 			}
+		}
+		if want.copyOpen && want.status == 0 && got.status == 200 {
+			// the empty copy made the writer send a real 200 (its own ReadFrom): the
+			// status that was sent before the panic stands
+			wantStatus = 200
+			out.Classes = append(out.Classes, "empty-copy-committed-200")
 		}
 		if got.status != wantStatus {
 			return fail(out, "status", "status %d, want %d (status sent before the panic: %d); %s", got.status, wantStatus, want.status, desc)
@@ -868,6 +889,10 @@ func genCase(t *rapid.T) Case {
 				h.Ops = append(h.Ops, fmt.Sprintf("s%d", []int{200, 201, 404, 503}[rapid.IntRange(0, 3).Draw(t, "code")]))
 			case w < 10:
 				pre := []string{"p:", "p:", "p:", "pg:", "pd:"}[rapid.IntRange(0, 4).Draw(t, "pfrom")]
+				if rapid.IntRange(0, 4).Draw(t, "copyfirst") == 0 {
+					// the handler streams from a source that fails at once, and panics with what it got
+					h.Ops = append(h.Ops, "cf")
+				}
 				h.Ops = append(h.Ops, pre+kinds[rapid.IntRange(0, len(kinds)-1).Draw(t, "kind")])
 			case w < 11:
 				h.Ops = append(h.Ops, []string{"bfw", "xc", "hj", "hj"}[rapid.IntRange(0, 3).Draw(t, "odd")])
